@@ -155,6 +155,11 @@ def results_for(lang, tier):
         ta, tb = TP.make_tree(longs[0], ws, lang), TP.make_tree(longs[1], ws, lang)
         share_tokens(ta, tb)
         out.append(('nbest_long', longs[0], [[ScoredTree(ta, -1.0), ScoredTree(tb, -2.0)]]))
+    # tokens no XML document can carry (control characters, U+FFFE): the XML formats may refuse them, but refusing is not changing
+    two = [t for t in lic if T.n_leaves(t) == 2][:1] or [t for t in arb if T.n_leaves(t) == 2][:1]
+    for t in two:
+        for ws in (['form\x0cfeed', 'x\x01'], ['a\x00b', 'w1'], ['\ufffe', 'bell\x07']):
+            out.append(('unprintable', t, [[ScoredTree(TP.make_tree(t, ws, lang), -1.0)]]))
     failed = [ScoredTree(tree=Tree.make_terminal('FAILED', K.P('NP')), score=-float('inf'))]
     out.append(('failed', ('L', 'NP', 0), [failed]))
     if lic:
